@@ -189,9 +189,10 @@ func proto3File() *descriptorpb.FileDescriptorProto {
 		all.OneofDecl = append(all.OneofDecl, &descriptorpb.OneofDescriptorProto{Name: sp("_" + nm)})
 	}
 
+	// Leaf.Color: a second enum type with the same simple name as the file-level Color, other members and numbers
 	leaf := &descriptorpb.DescriptorProto{Name: sp("Leaf"), Field: []*descriptorpb.FieldDescriptorProto{
 		field("x", 1, lOpt, tInt32, ""), field("s", 2, lOpt, tString, ""),
-	}}
+	}, EnumType: []*descriptorpb.EnumDescriptorProto{enumProto("Color", "NAVY", 0, "TEAL", 5, "ODD", 7)}}
 
 	// T: the message type of the state machine (recursive, with views of every shape).
 	t := &descriptorpb.DescriptorProto{Name: sp("T")}
@@ -290,6 +291,7 @@ var (
 	mdP2    protoreflect.MessageDescriptor
 	edColor protoreflect.EnumDescriptor
 	edOther protoreflect.EnumDescriptor
+	edLeafC protoreflect.EnumDescriptor
 	edE2    protoreflect.EnumDescriptor
 	exts    = map[string]protoreflect.ExtensionDescriptor{}
 	helpers starlark.StringDict
@@ -313,6 +315,7 @@ func init() {
 	mdP2 = f2.Messages().ByName("P2")
 	edColor = f3.Enums().ByName("Color")
 	edOther = f3.Enums().ByName("Other")
+	edLeafC = mdLeaf.Enums().ByName("Color")
 	edE2 = f2.Enums().ByName("E2")
 	for i := 0; i < f2.Extensions().Len(); i++ {
 		x := f2.Extensions().Get(i)
@@ -368,6 +371,9 @@ func msgCtor(md protoreflect.MessageDescriptor) starlark.Value {
 func enumCtor(ed protoreflect.EnumDescriptor) starlark.Value {
 	if ed == edE2 {
 		return attrOf(file2, "E2")
+	}
+	if ed == edLeafC {
+		return attrOf(attrOf(file3, "Leaf"), "Color")
 	}
 	return attrOf(file3, string(ed.Name()))
 }
